@@ -210,8 +210,8 @@ __CPROVER_loop_invariant(nv_st == NV_ST_MISSING ==> nv_cur_g == -1) \
 __CPROVER_loop_invariant(0 <= nv_visits && nv_visits <= 2 && (nv_visits == 0 ==> ((nv_st == NV_ST_NONE || nv_st == NV_ST_QUEUED) && (nv_st == NV_ST_QUEUED ==> nv_exp == 0)))) \
 __CPROVER_loop_invariant((nv_visits >= 1 && NV_ROOT(self).m_next == 0) ==> (nv_visits == 1 && nv_cur == 0 && (nv_st == NV_ST_LEAF || nv_st == NV_ST_MISSING) \
          && nv_cur_g == (NV_ISFIN(nv_v0) ? NV_STUMP_GROUP(nv_v0, NV_ROOT(self).m_threshold) : -1)))
-/* loop 2: a leaf pair hands every sample of the node its table */
-#define NV_LOOP_dtree_do_split_2 \
+/* the `sample` loop (keyed by its counter, NV_LOOPBY: the two arms of the if / else may come in either order): a leaf pair hands every sample of the node its table */
+#define NV_LOOPBY_dtree_do_split_sample \
 __CPROVER_assigns(sample, cluster.g, nv_st, nv_dbad, nv_as_count, nv_as_group) \
 __CPROVER_loop_invariant(0 <= sample && sample <= node_cluster.samples && !nv_dbad) \
 __CPROVER_loop_invariant((sample <= nv_s || node_cluster.g < 0) ==> (nv_st == __CPROVER_loop_entry(nv_st) && nv_as_count == __CPROVER_loop_entry(nv_as_count) \
@@ -219,8 +219,8 @@ __CPROVER_loop_invariant((sample <= nv_s || node_cluster.g < 0) ==> (nv_st == __
 __CPROVER_loop_invariant((sample > nv_s && node_cluster.g >= 0) ==> (nv_st == NV_ST_LEAF && nv_as_count == __CPROVER_loop_entry(nv_as_count) + 1 \
    && cluster.g == nv_as_group && nv_as_group == node->m_table + node_cluster.g)) \
 __CPROVER_decreases(node_cluster.samples - sample)
-/* loop 3: a split pair queues one entry per side */
-#define NV_LOOP_dtree_do_split_3 \
+/* the `group` loop: a split pair queues one entry per side */
+#define NV_LOOPBY_dtree_do_split_group \
 __CPROVER_assigns(group, splits.n, splits.new_has, splits.new_pos, splits.new_first, nv_st, nv_exp, nv_dbad) \
 __CPROVER_loop_invariant(0 <= group && group <= node_cluster.groups && !nv_dbad && splits.n == __CPROVER_loop_entry(splits.n) + (uint64_t)group) \
 __CPROVER_loop_invariant((group <= node_cluster.g || node_cluster.g < 0) ==> (nv_st == __CPROVER_loop_entry(nv_st) && nv_exp == __CPROVER_loop_entry(nv_exp) && !splits.new_has)) \
